@@ -36,6 +36,16 @@ def engineOp (heap : EngineHeap) : SExp → EngineHeap × String
         | (e', some err) => (heap.set i e', errTok err)
       | none => (heap, "bad-id")
     | _, _ => (heap, "bad-op")
+  -- `setup_sd_key(data)`: the movable.sed KeyY goes into the three SD slots, nothing else changes
+  | .list [.atom "sdk", id, d] =>
+    match id.nat?, d.bytes? with
+    | some i, some data =>
+      match heap[i]? with
+      | some e => match Sd.setupSdKey Prim.sha256 e data with
+        | .ok (e', _) => (heap.set i e', "ok")
+        | .error err => (heap, errTok err)
+      | none => (heap, "bad-id")
+    | _, _ => (heap, "bad-op")
   | .list [.atom "etk", id, t, idx, tid] =>
     match id.nat?, t.bytes?, idx.nat?, tid.bytes? with
     | some i, some tk, some ix, some ti =>
